@@ -85,6 +85,10 @@ EXPLANATION += (
     ' Round 11: without a mapping the query gene names are the var index as read (R-PROV/query-names-as-in-file); min_markers reaches the cache builder as configured.'
 )
 
+EXPLANATION += (
+    ' Round 12: ancestor lists are added nearest first (R-PROV/ancestors-nearest-first).'
+)
+
 RULE_TEXT = (
     "one obligation per cache-path argument, per indexed comprehension, "
     "per cache dataset, per log conditional, per error condition, per "
